@@ -30,7 +30,7 @@ def gen_patterns(rng, tree, inp_abs, auto, n=None):
             p = rng.choice(names_d)
         elif form == "glob":
             p = rng.choice(["e*.cmake", "e*", "a*", "*.cmake.in", "*b", "?", "e?.cmake", "*-*", "*.md", "a?", "*_last.cmake",
-                            "[ab].cmake", "top.*", "*.CMAKE", "*.CMake"])
+                            "[ab].cmake", "top.*", "*.CMAKE", "*.CMake", ".*", ".ci/", ".hidden.cmake", ".c*", ".tools"])
             if "[" in p:
                 p = "a.cmake"
         elif form == "dir-slash" and (names_d or names_f):
@@ -74,7 +74,7 @@ def build_case(rng, everything=False, flat=False):
             t.files["top.cmake"] = cmake_text("top.cmake")
         c.tree = t
     else:
-        c.tree = gen_tree(rng, max_depth=rng.choice([1, 2, 3, 4]), case_twins=rng.random() < 0.3)
+        c.tree = gen_tree(rng, max_depth=rng.choice([1, 2, 3, 4]), case_twins=rng.random() < 0.3, index_module=rng.random() < 0.08)
     c.recursive = rng.random() < 0.8
     c.auto = rng.random() < 0.6
     c.everything = everything
